@@ -1,7 +1,11 @@
 /-
 C15 — Operators lift uniformly; the numeric kernels obey their range and inverse laws.
 
-Property theorems only.  Part (b), kernels: every theorem is about the definitions GENERATED
+Property theorems only.
+Part (a), lifting: theorems about the executable model `Model.lean` of the `_compose_*` hooks,
+`scbuiltin` dispatch, `list_*op` and Python's operator resolution (with the operator table
+GENERATED from `absobject.py`); the model is tied to sc3 by the correspondence engine.
+Part (b), kernels: every theorem is about the definitions GENERATED
 from `sc3/base/builtins.py` by tools/py2lean.py (`GenKernels.lean`, `GenReal.lean`) — a changed
 formula in the source changes the term and the proof is re-checked.  `Num` is a dynamically
 typed Python number (`.i n` int, `.f q` float idealised as a rational); `wrap_D` etc. run the
@@ -10,7 +14,183 @@ int/float argument combinations.
 -/
 import Sc3Verif.C15.Lemmas
 import Sc3Verif.C15.LemmasReal
+import Sc3Verif.C15.LemmasLift
+import Sc3Verif.C15.GenOps
 namespace Sc3Verif.C15
+
+section Lifting
+open Sc3Verif.C15.Lift
+
+/-! # Part (a): operators lift uniformly (about the model `Model.lean`, tied to sc3 by correspondence) -/
+
+/-- `(f op g)(x) = f(x) op g(x)` for every binary selector. -/
+theorem fn_lift (sel : String) (n : Nat) (f g : Sc → Sc) (x : Sc) :
+    (applyBin sel (n + 1) (.fn f) (.fn g)).callAt x = some (.app sel [f x, g x]) := rfl
+
+/-- `(f op y)(x) = f(x) op y` for a plain number `y`. -/
+theorem fn_lift_scalar (sel : String) (n : Nat) (f : Sc → Sc) (y x : Sc) :
+    (applyBin sel (n + 1) (.fn f) (.sc y)).callAt x = some (.app sel [f x, y]) := rfl
+
+/-- reflected form: `(y op f)(x) = y op f(x)` — the number stays on the left. -/
+theorem fn_reflected (sel : String) (n : Nat) (f : Sc → Sc) (y x : Sc) :
+    (applyBin sel (n + 1) (.sc y) (.fn f)).callAt x = some (.app sel [y, f x]) := rfl
+
+theorem fn_unop_lift (sel : String) (n : Nat) (f : Sc → Sc) (x : Sc) :
+    (applyUn sel (n + 1) (.fn f)).callAt x = some (.app sel [f x]) := rfl
+
+/-- n-ary: every function argument is evaluated at the same point, numbers pass through. -/
+theorem fn_narop_lift (sel : String) (n : Nat) (f g : Sc → Sc) (y x : Sc) :
+    (applyNar sel (n + 1) (.fn f) [.fn g, .sc y]).callAt x = some (.app sel [f x, g x, y]) := rfl
+
+/-- `next (s op t) = next s op next t`, and the result ends as soon as one operand ends. -/
+theorem stream_lift (sel : String) (n : Nat) (p q : Bool) (s t : Nat → Option Sc) (i : Nat) :
+    (applyBin sel (n + 1) (.strm p s) (.strm q t)).nextAt i =
+      some (match s i, t i with
+            | some a, some b => some (.app sel [a, b])
+            | _, _ => none) := rfl
+
+theorem stream_ends_with_shorter (sel : String) (n : Nat) (p q : Bool) (s t : Nat → Option Sc) (i : Nat)
+    (h : s i = none ∨ t i = none) :
+    (applyBin sel (n + 1) (.strm p s) (.strm q t)).nextAt i = some none := by
+  rw [stream_lift]
+  rcases h with h | h <;> rw [h] <;> cases s i <;> rfl
+
+/-- a number is promoted to the constant stream; reflected: the number stays on the left -/
+theorem stream_scalar (sel : String) (n : Nat) (p : Bool) (s : Nat → Option Sc) (y : Sc) (i : Nat) :
+    (applyBin sel (n + 1) (.strm p s) (.sc y)).nextAt i = some ((s i).map fun a => .app sel [a, y]) ∧
+    (applyBin sel (n + 1) (.sc y) (.strm p s)).nextAt i = some ((s i).map fun a => .app sel [y, a]) := by
+  constructor <;> simp [applyBin, Obj.hook?, composeBin, toStream, zipStreams, Obj.nextAt] <;> cases s i <;> rfl
+
+/-- a pattern combined with anything streams like the streams of its operands -/
+theorem pattern_lift (sel : String) (n : Nat) (s t : Nat → Option Sc) (q : Bool) (i : Nat) :
+    (applyBin sel (n + 1) (.strm true s) (.strm q t)).nextAt i =
+      (applyBin sel (n + 1) (.strm false s) (.strm q t)).nextAt i := rfl
+
+/-- sequences: element-wise with wrap-around, length of the longer (empty if one is empty). -/
+theorem list_lift (sel : String) (n : Nat) (as bs : List Sc) :
+    ∃ L, applyBin sel (n + 2) (.seq .chan (as.map .sc)) (.seq .chan (bs.map .sc)) = .seq .chan L ∧
+      L.length = zipLen as.length bs.length ∧
+      ∀ i, i < L.length → L[i]? = pairAt (fun a b => .sc (.app sel [a, b])) as bs i := by
+  obtain ⟨L, h1, h2, h3⟩ := listBinop_flat (applyBin sel (n + 1)) n as bs .chan .chan .chan
+  refine ⟨L, ?_, h2, ?_⟩
+  · simp only [applyBin, Obj.hook?, composeBin]
+    exact h1
+  · intro i hi
+    rw [h3 i hi]
+    unfold pairAt
+    cases as[i % as.length]? <;> cases bs[i % bs.length]? <;> simp [applyBin_sc]
+
+/-- the same law for the library function on plain lists / tuples, for any result type `t` -/
+theorem list_binop_lift (sel : String) (n : Nat) (as bs : List Sc) (ka kb t : SeqK) :
+    ∃ L, listBinop (applyBin sel (n + 1)) (n + 1) (.seq ka (as.map .sc)) (.seq kb (bs.map .sc)) t = .seq t L ∧
+      L.length = zipLen as.length bs.length ∧
+      ∀ i, i < L.length → L[i]? = pairAt (fun a b => .sc (.app sel [a, b])) as bs i := by
+  obtain ⟨L, h1, h2, h3⟩ := listBinop_flat (applyBin sel (n + 1)) n as bs ka kb t
+  refine ⟨L, h1, h2, ?_⟩
+  intro i hi
+  rw [h3 i hi]
+  unfold pairAt
+  cases as[i % as.length]? <;> cases bs[i % bs.length]? <;> simp [applyBin_sc]
+
+/-- sequence with a number on either side: every member is combined with it, order kept;
+    nested members are entered recursively with their own type as result type. -/
+theorem list_scalar_lift (sel : String) (n : Nat) (xs : List Obj) (y : Sc) :
+    applyBin sel (n + 2) (.seq .chan xs) (.sc y) =
+      .seq .chan (xs.map fun x => listBinop (applyBin sel (n + 1)) n x (.sc y) x.kind) ∧
+    applyBin sel (n + 2) (.sc y) (.seq .chan xs) =
+      .seq .chan (xs.map fun x => listBinop (applyBin sel (n + 1)) n (.sc y) x x.kind) := by
+  constructor <;> simp [applyBin, Obj.hook?, composeBin, listBinop]
+
+/-- nested members of two sequences are combined by the same law one level down; the member
+    result is a tuple when one of the two members is a tuple, else a list. -/
+theorem list_nested_lift (op : Obj → Obj → Obj) (n : Nat) (ka kb kx ky t : SeqK) (xs ys : List Obj) :
+    listBinop op (n + 2) (.seq ka [.seq kx xs]) (.seq kb [.seq ky ys]) t =
+      .seq t [listBinop op (n + 1) (Obj.seq kx xs).untuple (Obj.seq ky ys).untuple
+                (if kx = .tuple ∨ ky = .tuple then .tuple else .list)] := by
+  cases kx <;> cases ky <;> simp [listBinop, wrapExtend, Obj.isSeq, Obj.isTuple, Obj.untuple]
+
+/-- `Operand(a) op b = Operand(a op b)`, operands unwrapped, also reflected. -/
+theorem operand_lift (sel : String) (n : Nat) (a b : Sc) :
+    applyBin sel (n + 2) (.opnd a) (.sc b) = .opnd (.app sel [a, b]) ∧
+    applyBin sel (n + 2) (.opnd a) (.opnd b) = .opnd (.app sel [a, b]) ∧
+    applyBin sel (n + 2) (.sc a) (.opnd b) = .opnd (.app sel [a, b]) ∧
+    applyUn sel (n + 1) (.opnd a) = .opnd (.app sel [a]) := by
+  refine ⟨?_, ?_, ?_, ?_⟩ <;> simp [applyBin, applyUn, Obj.hook?, composeBin, numeric]
+
+/-- `@scbuiltin.binop` (and an `operator.*` selector): the left operand's hook, else the right
+    operand's reflected hook, else the numeric function. -/
+theorem builtin_dispatch (name : String) (n : Nat) (a b : Obj) :
+    applyBin name (n + 1) a b =
+      (match a.hook?, b.hook? with
+       | some _, _ => composeBin (applyBin name n) n name true a b
+       | none, some _ => composeBin (applyBin name n) n name false b a
+       | none, none => numeric name [a, b]) := by
+  simp only [applyBin]
+  cases a.hook? <;> cases b.hook? <;> rfl
+
+theorem builtin_is_dispatch (name : String) (a b : Obj) :
+    pyBuiltin "binop" name [a, b] = applyBin name fuel a b ∧
+    pyBuiltin "unop" name [a] = applyUn name fuel a ∧
+    pyBuiltin "narop" name [a, b] = applyNar name fuel a [b] := ⟨rfl, rfl, rfl⟩
+
+
+/-! ## Reflected forms, on the operator table GENERATED from `absobject.py` -/
+
+/-- the Python operators that have a reflected method -/
+def reflectedPairs : List (String × String) :=
+  [("__add__", "__radd__"), ("__sub__", "__rsub__"), ("__mul__", "__rmul__"),
+   ("__truediv__", "__rtruediv__"), ("__floordiv__", "__rfloordiv__"), ("__mod__", "__rmod__"),
+   ("__pow__", "__rpow__"), ("__lshift__", "__rlshift__"), ("__rshift__", "__rrshift__"),
+   ("__and__", "__rand__"), ("__or__", "__ror__"), ("__xor__", "__rxor__")]
+
+/-- Every arithmetic dunder of `AbstractObject` has its reflected twin, which forwards the SAME
+    selector to `_rcompose_binop` (complete finite table, checked by evaluation). -/
+theorem reflected_table_consistent :
+    reflectedPairs.all (fun p =>
+      match findRow GenOps.ops p.1, findRow GenOps.ops p.2 with
+      | some a, some b => a.hook == "_compose_binop" && b.hook == "_rcompose_binop" && a.sel == b.sel
+                          && a.passes == a.params && b.passes == b.params && a.params.length == 1
+      | _, _ => false) = true := by decide
+
+/-- The comparison dunders exist, none has a reflected twin (Python mirrors them instead). -/
+theorem comparison_table_consistent :
+    ["lt", "le", "eq", "ne", "gt", "ge"].all (fun op =>
+      (match findRow GenOps.ops ("__" ++ op ++ "__") with
+       | some a => a.hook == "_compose_binop" && a.sel == op
+       | none => false) && (findRow GenOps.ops ("__r" ++ op ++ "__")).isNone
+      && (mirror op).isSome) = true := by decide
+
+/-- A plain number on the left of an operator with a reflected method: the right operand's
+    `_rcompose_binop` runs the selector of its table row with the operands in the written order
+    (this is what makes `3 - f`, `3 / f`, `3 % f`, `3 ** f` right). -/
+theorem reflected_forms (ops : List OpRow) (op : String) (r : OpRow) (hop : dunderName op = op)
+    (hr : findRow ops s!"__r{op}__" = some r) (y : Sc) (f : Sc → Sc) (x : Sc) :
+    (pyBinary ops op (.sc y) (.fn f)).callAt x = some (.app r.sel [y, f x]) := by
+  simp only [pyBinary, hop, Obj.hook?, hr]
+  rfl
+
+/-- A comparison with a number on the left runs the mirrored comparison of the right operand
+    with the operands swapped: `3 < f` evaluates `f(x) > 3`. -/
+theorem reflected_comparison (ops : List OpRow) (op m : String) (r : OpRow) (hop : dunderName op = op)
+    (hno : findRow ops s!"__r{op}__" = none) (hm : mirror op = some m)
+    (hr : findRow ops s!"__{m}__" = some r) (y : Sc) (f : Sc → Sc) (x : Sc) :
+    (pyBinary ops op (.sc y) (.fn f)).callAt x = some (.app r.sel [f x, y]) := by
+  simp only [pyBinary, hop, Obj.hook?, hno, hm, hr]
+  rfl
+
+/-- instances on the generated table -/
+example (y : Sc) (f : Sc → Sc) (x : Sc) :
+    (pyBinary GenOps.ops "sub" (.sc y) (.fn f)).callAt x = some (.app "sub" [y, f x]) := rfl
+example (y : Sc) (f : Sc → Sc) (x : Sc) :
+    (pyBinary GenOps.ops "lt" (.sc y) (.fn f)).callAt x = some (.app "gt" [f x, y]) := rfl
+example (f : Sc → Sc) (x : Sc) :
+    (pyMethod GenOps.ops "round" (.fn f) []).callAt x = some (.app "round" [f x, .atom "i:1"]) := rfl
+
+end Lifting
+
+/-! # Part (b): the numeric kernels -/
+
+section Kernels
 open Sc3Verif.C15.Gen Sc3Verif.C15.GenR
 
 /-! ## wrap -/
@@ -392,5 +572,7 @@ example : clip_D (.f 5) (.f (1/2)) (.f (5/2)) = .ok (.f (5/2)) := by
   simp only [clip_D, clip_FFF, min_FF_eq, max_FF_eq]; norm_num
 example : octcps_F 4.75 = 440 := by
   unfold octcps_F; rw [pow_FF_nonneg (by norm_num)]; norm_num
+
+end Kernels
 
 end Sc3Verif.C15
